@@ -31,6 +31,7 @@ def Acc.show : Acc → String
   | .addLen d new => (if d ≥ 0 then s!"add len +{d}={new}" else s!"add len {d}={new}")
   | .stTail n => s!"st tail={n}"
   | .yield => "yield"
+  | .tick => "tick"
   | .ldHead h => s!"ld head={h}"
   | .casHead h n ok => s!"cas head {h}->{showIdx n} {if ok then "ok" else "fail"}"
   | .rdVal n v => s!"rd val[{n}]={v}"
@@ -48,6 +49,7 @@ def parseCall (t : String) : Option Call :=
   else if t = "l" then some .len
   else if t = "w" then some (.popWait true)
   else if t = "z" then some (.popWait false)
+  else if t.startsWith "t" then (t.drop 1).toString.toNat?.map Call.popWaitT
   else if t.startsWith "u" then (t.drop 1).toString.toInt?.map Call.push
   else none
 
